@@ -41,11 +41,12 @@ func (r *ResponseFilter) Filter(msg proto.Message) {
 	if msg == nil {
 		return
 	}
-	if len(r.fields.GetPaths()) == 0 {
+	paths := filterPaths(msg, r.fields.GetPaths())
+	if len(paths) == 0 {
 		proto.Reset(msg)
 		return
 	}
-	fmutils.Filter(msg, r.fields.GetPaths())
+	fmutils.Filter(msg, paths)
 }
 
 // FilterClone is like Filter but clones and returns a new msg instead of modifying the original.
@@ -56,14 +57,23 @@ func (r *ResponseFilter) FilterClone(msg proto.Message) proto.Message {
 	if msg == nil {
 		return msg
 	}
-	if len(r.fields.GetPaths()) == 0 {
+	paths := filterPaths(msg, r.fields.GetPaths())
+	if len(paths) == 0 {
 		clone := proto.Clone(msg)
 		proto.Reset(clone)
 		return clone
 	}
 	clone := proto.Clone(msg)
-	fmutils.Filter(clone, r.fields.GetPaths())
+	fmutils.Filter(clone, paths)
 	return clone
+}
+
+// filterPaths returns the paths to filter msg by: paths already covered by a parent path are dropped,
+// fmutils would otherwise treat {"a", "a.b"} as if it were {"a.b"}.
+func filterPaths(msg proto.Message, paths []string) []string {
+	m := &fieldmaskpb.FieldMask{Paths: append([]string(nil), paths...)}
+	m.Normalize()
+	return m.Paths
 }
 
 type ResponseFilterOption func(*ResponseFilter)
